@@ -335,24 +335,20 @@ pub fn u1_case(ctx: &mut Ctx, idx: u64) {
                     // sometimes re-use an identity that is already stored (same record received again / registered again)
                     if !members.is_empty() && r.chance(1, 4) {
                         rec = members[r.usize(0, members.len() - 1)].0.clone();
-                        rec.ttl = *r.pick(&[100_000u32, 4500, 120]);
+                        // (received again as a refresh, with the cache-flush bit, or as a goodbye with TTL 0)
+                        rec.ttl = *r.pick(&[100_000u32, 4500, 120, 0, 0, 1]);
                         rec.flush = r.chance(1, 3);
                     }
                     let auth = r.chance(2, 3);
                     let id = ident_of(&rec);
                     if let Some(slot) = members.iter_mut().find(|(m, _)| ident_of(m) == id) {
-                        // registered records stay authoritative when also received from the network; a cached record
-                        // that is then registered becomes authoritative
+                        // registered records stay authoritative whatever is received from the network about them (refresh,
+                        // cache-flush copy, goodbye); a cached record that is then registered becomes authoritative. How long
+                        // a cached copy lives is C20's subject: it is never part of a reply either way
                         if auth {
                             slot.1 = true;
                         }
-                        if !slot.1 && rec.flush {
-                            continue; // a cache-flush copy of a cached record lives one second: expiry is C20's subject
-                        }
-                    } else {
-                        if !auth && rec.flush {
-                            continue;
-                        }
+                    } else if auth || !(rec.flush || rec.ttl <= 1) {
                         members.push((rec.clone(), auth));
                     }
                     let rr = bridge::lib_record(&rec).unwrap().into_owned();
